@@ -62,7 +62,17 @@ impl<T: Write + Send + 'static> Worker<T> {
             let handle_result = self.handle_try_recv(&try_recv_result);
             worker_state = handle_result?;
         }
-        self.writer.flush()?;
+        let flushed = self.writer.flush();
+        // A failing flush must not make us forget that the channel was shut down
+        // or disconnected: the worker thread would go back to waiting on the
+        // channel and the guard's drop would run into its timeout.
+        if matches!(
+            worker_state,
+            WorkerState::Shutdown | WorkerState::Disconnected
+        ) {
+            return Ok(worker_state);
+        }
+        flushed?;
         Ok(worker_state)
     }
 
